@@ -1,6 +1,6 @@
 (* C20 - compiled and dataclass payloads behave like their plain definition.  Property theorems only. *)
 From Coq Require Import ZArith List Bool.
-From IPV8V Require Import lib.PyErr model.M20_vp proofs.P20_vp.
+From IPV8V Require Import lib.PyErr model.M20_vp proofs.P20_vp proofs.P20_mixed.
 Import ListNotations.
 
 (* For every well-formed definition (any formats incl. bits / nested / lists, any hooks) and every
@@ -37,6 +37,15 @@ Theorem compiled_init_equals_interpreted_keywords : forall V L lit_val d kwargs 
 Proof. exact init_equal_keywords_l. Qed.
 Print Assumptions compiled_init_equals_interpreted_keywords.
 
+(* ... and from any mixture of positional and keyword arguments: the generated signature accepts exactly the calls the
+   interpreted constructor accepts and binds them to the same fields (calls rejected by one are rejected by the other;
+   only the exception class differs: KeyError vs TypeError). *)
+Theorem compiled_init_equals_interpreted_mixed : forall V L lit_val d args kwargs fs,
+  wf_defn d = true ->
+  (interp_init V d args kwargs = Ok fs <-> eval_init V L lit_val (gen_init (d_names d) []) args kwargs = Ok fs).
+Proof. exact init_equal_mixed_iff_l. Qed.
+Print Assumptions compiled_init_equals_interpreted_mixed.
+
 (* Omitted trailing arguments take the definition's default value - provided evaluating the default as
    rendered into the generated signature gives back the default (checked on the implementation for every
    literal kind by the correspondence; this is what str() instead of repr() broke). *)
@@ -63,4 +72,13 @@ Example c20_nonvacuous :
                 (PPayload, [(19, true)]); (PPayloadList, [(20, false)])] /\
   eval_to_pack nat (fun n v => v + 100) (gen_pack d) (combine (d_names d) (seq 0 11)) =
   Ok [(PStr 0, [0]); (PStr 1, [101; 2; 3; 4; 5; 6; 7; 8]); (PPayload, [109]); (PPayloadList, [10])].
+Proof. vm_compute. repeat split. Qed.
+
+(* non-vacuity of the mixed theorem: two positional and two keyword arguments (given out of order) *)
+Example c20_mixed_nonvacuous :
+  let d := mkDefn [KStr 0 false; KStr 0 false; KStr 0 false; KStr 0 false] [10;11;12;13] [] [] in
+  interp_init nat d [1; 2] [(13, 4); (12, 3)] = Ok [(10, 1); (11, 2); (12, 3); (13, 4)] /\
+  eval_init nat unit (fun _ => Ok 0) (gen_init (d_names d) []) [1; 2] [(13, 4); (12, 3)] = Ok [(10, 1); (11, 2); (12, 3); (13, 4)] /\
+  interp_init nat d [1; 2] [(11, 9); (12, 3); (13, 4)] = Raise KeyError /\
+  eval_init nat unit (fun _ => Ok 0) (gen_init (d_names d) []) [1; 2] [(11, 9); (12, 3); (13, 4)] = Raise TypeError.
 Proof. vm_compute. repeat split. Qed.
